@@ -240,6 +240,25 @@ func runC10(c *core.Ctx) error {
 		return err
 	}
 	c.AddTLC("SchemaApi_shareditem.cfg", sharedItem)
+	sharedParent, err := tlc.Run(tlc.Opts{Module: "SchemaApi", Cfg: "SchemaApi_sharedparent.cfg", Workers: 16, Timeout: 40 * time.Minute, OnLine: func(l string) {
+		n++
+		// the histories of interest register the shared parent on both roots and ask both
+		if strings.Count(l, `"op":"AddType"`) < 3 {
+			return
+		}
+		if !c.Thorough() && (n+int(c.Seed))%4 != 0 {
+			return
+		}
+		cases = append(cases, json.RawMessage(l))
+	}})
+	sharedParent.Cleanup()
+	if err != nil {
+		return err
+	}
+	if err := sharedParent.MustOK(); err != nil {
+		return err
+	}
+	c.AddTLC("SchemaApi_sharedparent.cfg", sharedParent)
 	c.Set("histories", len(cases))
 	// repetition sweeps, spread over the worker processes
 	for i := 0; i < 48; i++ {
